@@ -128,6 +128,16 @@ CHECKS.update({
     ),
 })
 
+CHECKS.update({
+    "C18": dict(
+        engine="E1+E2+E8 fault enumeration driver",
+        category="fault_enumeration",
+        text="Generated configurations crossed with the complete refusal-point list (setup errnos, each required feature bit missing singly and in pairs, mmap #1-#3 failing, madvise after each mmap failing, REGISTER_FILES2 failing, no fault): on Err nothing is left behind (descriptor closed once, each mapping unmapped once, no heap block, descriptor table unchanged) and the error is the injected one; on Ok the io_uring_params encode exactly the request and the ring works with exactly the granted queue sizes.",
+        design_ref="5/C18",
+        technique="fault-injection enumeration (complete refusal list per generated configuration) with resource-ledger oracles",
+    ),
+})
+
 NOT_YET = {
 }
 
